@@ -255,6 +255,9 @@ class ConcProgram(Program):
             op = {'mul': 'Mul', 'add': 'Add', 'sub': 'Sub'}[mm.group(2)]
             return m.binop(op, a[0], a[1])
 
+        from .stdmodel import install_std_models
+        install_std_models(self)
+
     def one(self, name, pred=None):
         c = [f for f in self.fn.get(name, []) if '// MIR FOR CTFE' not in f.header and (pred is None or pred(f))]
         # the dump prints const fns twice (runtime MIR and "MIR FOR CTFE"): take the first
